@@ -7,10 +7,12 @@ import (
 
 	ipfslog "berty.tech/go-ipfs-log"
 	"berty.tech/go-ipfs-log/accesscontroller"
+	"berty.tech/go-ipfs-log/enc"
 	"berty.tech/go-ipfs-log/entry"
 	idp "berty.tech/go-ipfs-log/identityprovider"
 	"berty.tech/go-ipfs-log/iface"
 	"berty.tech/go-ipfs-log/internal/vx"
+	"berty.tech/go-ipfs-log/io/cbor"
 	"github.com/ipfs/go-cid"
 	format "github.com/ipfs/go-ipld-format"
 	coreiface "github.com/ipfs/kubo/core/coreiface"
@@ -69,7 +71,22 @@ func (p plainIO) DecodeRawEntry(n format.Node, h cid.Cid, pr idp.Interface) (ifa
 }
 func (p plainIO) DecodeRawJSONLog(n format.Node) (*iface.JSONLog, error) { return p.io.DecodeRawJSONLog(n) }
 
+// pickIO: codec configuration. CODEC=1: the real default CBOR codec; CODEC=2: the real CBOR codec with a link
+// key (encrypted links); NOPRESIGN=1: an IO without the optional PreSign step (like the legacy protobuf codec);
+// default: the atom-CID store.
 func pickIO(api *memAPI) iface.IO {
+	switch vx.Param("CODEC", 0) {
+	case 1, 2:
+		base, err := cbor.IO(&entry.Entry{}, &entry.LamportClock{})
+		if err != nil {
+			panic(err)
+		}
+		if vx.Param("CODEC", 0) == 2 {
+			k, _ := enc.NewSecretbox(linkKeyBytes(5))
+			return base.ApplyOptions(&cbor.Options{LinkKey: k})
+		}
+		return base
+	}
 	if vx.Param("NOPRESIGN", 0) == 1 {
 		return plainIO{io: &atomIO{api: api}}
 	}
@@ -230,10 +247,10 @@ func H_C06_append() {
 	ids, _ := realIdentities("userA", "userB")
 	api := newMemAPI()
 	io := pickIO(api)
-	n := vx.Choice("n", 3)
+	n := vx.Choice("n", vx.Param("MAXN", 3))
 	A := newLogOpt(api, ids[0], &ipfslog.LogOptions{ID: "X", IO: io})
 	for i := 0; i < n; i++ {
-		e, err := A.Append(ctx, []byte{'a', byte('0' + i)}, nil)
+		e, err := A.Append(ctx, []byte{'a', byte('0' + i)}, &ipfslog.AppendOptions{PointerCount: vx.Param("PC", 1)})
 		vx.Assert("C06", err == nil, "append on a permissive log succeeds")
 		vx.Assert("C06", e.Verify(ids[0].Provider, io) == nil, "every entry produced by Append verifies")
 	}
